@@ -70,9 +70,8 @@ def gen_cases(ctx):
         m = gen.random_bijection(rng, pg)
         yield {"cls": cls, "pg": pg_to_json(pg), "variant": VARIANTS[j % len(VARIANTS)], "bseed": rng.randrange(1 << 30), "idmap": [[a, b] for a, b in m.items()]}
     # very long chains (300-2600 backbone atoms): deep recursion / n*n index arithmetic inside == and hash
-    for k, nsz in enumerate(gen.SCALE_SIZES[ctx.tier]):
-        for c, cls in enumerate(CLASS_NAMES):
-            yield {"cls": cls, "scale": nsz, "gseed": rng.randrange(1 << 30), "variant": ("rebuild", "relabel_copy", "derived", "relabel_inplace")[(k + c) % 4], "bseed": rng.randrange(1 << 30)}
+    for k, nsz, cls, seed in gen.scale_specs(ctx, rng):
+        yield {"cls": cls, "scale": nsz, "gseed": seed, "variant": ("rebuild", "relabel_copy", "derived", "relabel_inplace", "derived")[k % 5], "bseed": seed // 3}
 
 
 def _variant(pg, variant, brng, m):
